@@ -22,6 +22,13 @@ fn idx_of<E>(tokens: &[TextToken], v: &ValueReader<E>) -> usize {
     (p - base) / std::mem::size_of::<TextToken>()
 }
 
+fn str_of<E: Encoding + Clone>(v: &ValueReader<E>) -> String {
+    match v.read_str() {
+        Ok(s) => hex(s.as_bytes()),
+        Err(_) => "E".to_string(),
+    }
+}
+
 fn op_str(op: &Option<Operator>) -> String {
     match op {
         Some(o) => format!("{}", op_code(o)),
@@ -36,10 +43,12 @@ fn join(v: Vec<String>) -> String {
 fn array_view<E: Encoding + Clone>(tokens: &[TextToken], r: &ArrayReader<E>) -> String {
     let vals: Vec<String> = r.values().map(|v| idx_of(tokens, &v).to_string()).collect();
     let (lo, hi) = r.values().size_hint();
+    let strs: Vec<String> = r.values().map(|v| str_of(&v)).collect();
     format!(
-        "A{{n={},v=[{}],tl={},e={},vh={}/{}}}",
+        "A{{n={},v=[{}],vs=[{}],tl={},e={},vh={}/{}}}",
         r.len(),
         join(vals),
+        join(strs),
         r.tokens_len(),
         r.is_empty() as u8,
         lo,
@@ -52,7 +61,9 @@ fn object_view<E: Encoding + Clone>(tokens: &[TextToken], r: &ObjectReader<E>) -
     let hint = fields.size_hint().0;
     let mut fs = Vec::new();
     let mut ks = Vec::new();
+    let mut vs = Vec::new();
     for (key, op, val) in fields.by_ref() {
+        vs.push(str_of(&val));
         fs.push(format!("{}/{}/{}", tok_str(key.token()), op_str(&op), idx_of(tokens, &val)));
         ks.push(hex(key.read_str().as_bytes()));
         // read_string and read_scalar are the same data
@@ -75,13 +86,13 @@ fn object_view<E: Encoding + Clone>(tokens: &[TextToken], r: &ObjectReader<E>) -
             GroupEntry::Multiple(_) => "m",
         };
         assert!(!group.is_empty());
-        gs.push(format!("{}{}{}({})", tok_str(key.token()), kind, n, join(vs)));
+        gs.push(format!("{}{}{}({})", tok_str(key.token()), kind, n, vs.join("+")));
         ghs.push(groups.size_hint().0.to_string());
     }
     let grem = groups.remainder();
     let gremv: Vec<String> = grem.values().map(|v| idx_of(tokens, &v).to_string()).collect();
     format!(
-        "O{{fl={},h={},f=[{}],rem=[{}]/{}/{},g=[{}],gh={}:{},grem=[{}],tl={},ks=[{}]}}",
+        "O{{fl={},h={},f=[{}],rem=[{}]/{}/{},g=[{}],gh={}:{},grem=[{}],tl={},ks=[{}],vs=[{}]}}",
         r.fields_len(),
         hint,
         join(fs),
@@ -93,7 +104,8 @@ fn object_view<E: Encoding + Clone>(tokens: &[TextToken], r: &ObjectReader<E>) -
         ghs.join(","),
         join(gremv),
         r.tokens_len(),
-        join(ks)
+        join(ks),
+        join(vs)
     )
 }
 
